@@ -302,6 +302,11 @@ def content_cases(rng, n):
         e_ = rng.choice(['a', '', 'xy']) + '\\%x ' % ord(c) + rng.choice(['', 'b'])
         out.append(('ident-hex-escaped-punct', rng.choice(['a{x: %s}', 'a{x: b %s c}', '%s{d:e}', 'b .%s{d:e}', 'a{%s: 1}', 'a{x:f(%s)}', '@media %s{a{b:c}}',
                                                             'a[%s]{d:e}', '@x %s;']) % e_ + ' z{y:x}', e_))
+    for _ in range(n // 6):
+        # names and values made of characters that are white space to Python but name characters to CSS
+        w = rng.choice(['\u00a0', '\u3000', '\u2003', '\u0085', '\u00a0\u00a0', 'a\u00a0', '\u00a0a'])
+        out.append(('unicode-space-name', rng.choice(['a{x: %s}', 'a{x: b %s c}', '%s{d:e}', 'b :not(%s){d:e}', 'a{%s: 1}', 'a{x:f(%s)}', 'a[%s=b]{d:e}', 'a{x:1px %s!important}',
+                                                     'b %s c{d:e}', '.%s > #%s{d:e}']).replace('%s', w), w))
     for _ in range(n // 4):
         nm = rng.choice(['1a', '9', '-1x', '2-b'])
         out.append(('digit-start-name', '.\\%x %s{c:d}' % (ord(nm[0]), nm[1:]) if nm[0] != '-' else '.-\\31 x{c:d}', nm))
